@@ -105,6 +105,9 @@ def _cls(kind, n):
                "    def __iter__(self): return iter(self._d)\n"
                "    def __len__(self): return len(self._d)\n"
                "    def __bool__(self): return False\n")
+    elif kind == "dictget":
+        src = (f"class {name}(dict):\n    def __getitem__(self, k):\n        self.reads = getattr(self, 'reads', 0) + 1\n"
+               "        return ('got', dict.__getitem__(self, k))\n")
     elif kind == "cmap":
         src = (f"import collections.abc\nclass {name}(collections.abc.Mapping):\n"
                "    def __init__(self, d): self._d = dict(d)\n"
@@ -127,11 +130,11 @@ def _cls(kind, n):
 def materialise(kind, elems):
     n = len(elems)
     es = [_elem(s, i + 1, kind) for i, s in enumerate(elems)]
-    if kind in ("dict", "odict", "mproxy", "cmap", "cmapfalsy"):
+    if kind in ("dict", "odict", "mproxy", "cmap", "cmapfalsy", "dictget"):
         d = {f"k{i + 1}": e for i, e in enumerate(es)}
         return {"dict": lambda: d, "odict": lambda: collections.OrderedDict(d),
                 "mproxy": lambda: types.MappingProxyType(d), "cmap": lambda: _cls("cmap", 0)(d),
-                "cmapfalsy": lambda: _cls("cmapfalsy", 0)(d)}[kind](), es
+                "cmapfalsy": lambda: _cls("cmapfalsy", 0)(d), "dictget": lambda: _cls("dictget", 0)(d)}[kind](), es
     if kind in ("dc", "dcslots", "plain", "nt", "dcchild", "dcslotschild", "plainchild", "dcfalsy", "ntfalsy", "plaindesc"):
         return _cls(kind, n)(*es), es
     if kind in ("slotsonly", "varsonly", "slotsonlychild", "slotsonlygrand"):
